@@ -1,5 +1,5 @@
 (* C07/Properties.v — property theorems only. Each is closed by a lemma of C07/Proofs.v. *)
-From Relic Require Import Base.Prelude Generated.C07_gen C07.Model C07.Proofs.
+From Relic Require Import Base.Prelude Generated.C07_gen C07.Model C07.Proofs C07.History C07.HistoryProofs.
 
 (* 1. SameKey answers "same public key": sound up to the curve identifier, complete on RSA/ECDSA keys *)
 Theorem same_key_sound : forall a b, same_key a b = true ->
@@ -123,6 +123,97 @@ Theorem lookup_right_key : forall getkey xf pf n b, init_key getkey xf pf n = Ok
        same_key (KPriv (fk_priv k)) (KPub (en_pub e)) = true /\ pf (kc_pgp (fk_conf k)) = Ok [e]).
 Proof. exact C07.Proofs.init_key_right. Qed.
 
+(* 9. HISTORY inside a long-lived process: the n-th request as well as the first.
+      9a. the process state that survives a request is the reviewed one (package-level variables of internal/signinit,
+          lib/certloader, signers + unguarded signer packages, token/tokencache, token/filetoken; fields of Cache, cachedKey,
+          fileToken, fileKey, certloader.Certificate): only tokencache.Cache.keys holds key material *)
+Theorem long_lived_state_is_reviewed : process_state_reviewed = true.
+Proof. exact C07.HistoryProofs.process_state_is_reviewed. Qed.
+(*    9b. data flow: every non-nil bundle InitKey returns is the result of LoadTokenCertificates called in the same
+          invocation with the key GetKey returned in the same invocation; Init returns InitKey's bundle; serveSign and
+          signCmd hand exactly that bundle to mod.Sign *)
+Theorem field_names_are_what_they_say : field_names_ok = true.
+Proof. exact C07.HistoryProofs.field_names. Qed.
+Theorem initkey_returns_checked_bundle : initkey_shape_ok = true.
+Proof. exact C07.HistoryProofs.initkey_shape. Qed.
+Theorem init_returns_initkey_bundle : init_shape_ok = true.
+Proof. exact C07.HistoryProofs.init_shape. Qed.
+Theorem callers_sign_with_init_bundle : callers_ok = true.
+Proof. exact C07.HistoryProofs.callers_shape. Qed.
+Theorem file_key_object_is_conf_key_cert : filekey_shape_ok = true.
+Proof. exact C07.HistoryProofs.filekey_shape. Qed.
+Theorem signer_modules_require_their_certificate : signer_certtypes_ok = true.
+Proof. exact C07.HistoryProofs.signer_certtypes. Qed.
+(*    9c. EVERY issuance of EVERY history (any configuration, any initial world and cache contents, any sequence of key
+          file / certificate file / PGP file replacements and requests, any clock, any cache expiry): the signature was
+          made by the key k the token layer handed out for this request, and the embedded leaf is the first certificate
+          of what the certificate source holds AT THE TIME OF THIS REQUEST, accepted by SameKey against k *)
+Theorem history_every_issuance_checked : forall c exp evs w s w' s0 q o,
+  In (w', s0, q, Ok o) (History.run c exp w s evs) -> req_wf q ->
+  exists k, key_for c exp w' s0 q = Ok k /\ issued_ok w' k (q_msg q) o.
+Proof. exact C07.HistoryProofs.history_issue_checked. Qed.
+(*    hence it meets the specification written from the property text *)
+Theorem history_sound : forall c exp evs w s w' s0 q o,
+  In (w', s0, q, Ok o) (History.run c exp w s evs) -> req_wf q -> out_curve_ok o -> spec_output_ok (q_msg q) o = true.
+Proof. exact C07.HistoryProofs.history_sound. Qed.
+(*    9d. a configuration that is mismatched at the time of a request is refused, whatever happened before *)
+Theorem history_mismatch_refused : forall c exp evs w s w' s0 q res k src l r,
+  In (w', s0, q, res) (History.run c exp w s evs) ->
+  key_for c exp w' s0 q = Ok k ->
+  kc_x509 (tk_conf k) <> 0 -> w_x509 w' (kc_x509 (tk_conf k)) = Ok src -> cs_bad src = false -> cs_certs src = l :: r ->
+  same_key (KPriv (tk_priv k)) (KPub (c_pub l)) = false ->
+  res = Err E_MISMATCH.
+Proof. exact C07.HistoryProofs.history_mismatch_refused. Qed.
+Theorem pgp_mismatch_refused : forall c exp w s q k e,
+  key_for c exp w s q = Ok k -> kc_x509 (tk_conf k) = 0 -> cs_certs (tk_blob k) = [] ->
+  kc_pgp (tk_conf k) <> 0 -> w_pgp w (kc_pgp (tk_conf k)) = Ok [e] ->
+  same_key (KPriv (tk_priv k)) (KPub (en_pub e)) = false ->
+  fst (serve c exp w s q) = Err E_MISMATCH.
+Proof. exact C07.HistoryProofs.serve_pgp_mismatch_refused. Qed.
+(*    the two rotations: sign, replace the key file (certificate files stay) / the certificate file (key stays), sign
+          again without a live cache entry: refused, for all keys, certificates, sections, signers and first requests *)
+Theorem key_rotation_refused : forall c exp w name kc B blobB src l r q1 q2,
+  cfg_get_key c name = Ok kc -> kc_keyfile kc <> 0 -> kc_x509 kc <> 0 ->
+  w_x509 w (kc_x509 kc) = Ok src -> cs_bad src = false -> cs_certs src = l :: r ->
+  same_key (KPriv B) (KPub (c_pub l)) = false ->
+  q_name q2 = name -> q_fresh q2 = false ->
+  exists r1, map snd (History.run c exp w [] [EReq q1; EKey (kc_keyfile kc) (Ok (B, blobB)); EReq q2]) = [r1; Err E_MISMATCH].
+Proof. exact C07.HistoryProofs.key_rotation_refused. Qed.
+Theorem cert_rotation_refused : forall c exp w name kc A blobA src' l' r' q1 q2,
+  cfg_get_key c name = Ok kc -> kc_keyfile kc <> 0 -> kc_x509 kc <> 0 ->
+  w_key w (kc_keyfile kc) = Ok (A, blobA) -> cs_bad src' = false -> cs_certs src' = l' :: r' ->
+  same_key (KPriv A) (KPub (c_pub l')) = false ->
+  q_name q2 = name -> q_fresh q2 = false ->
+  exists r1, map snd (History.run c exp w [] [EReq q1; EX509 (kc_x509 kc) (Ok src'); EReq q2]) = [r1; Err E_MISMATCH].
+Proof. exact C07.HistoryProofs.cert_rotation_refused. Qed.
+(*    9e. which key: a request is answered from a live cache entry stored under the requested name or by the token now;
+          an expired entry is never used; without an expiry the key is the one the key file holds at the time of the
+          request; in every case it is a key the token handed out for the requested name in some world of the history *)
+Theorem cache_answers : forall base exp s n fresh wl ie,
+  (exists k, hcache_find s n = Some k /\ fresh = true /\ hcache_get_key base exp s n fresh wl ie = (Ok k, s)) \/
+  (fst (hcache_get_key base exp s n fresh wl ie) = base n /\
+   (snd (hcache_get_key base exp s n fresh wl ie) = s \/
+    exists k, base n = Ok k /\ snd (hcache_get_key base exp s n fresh wl ie) = (n, k) :: s)).
+Proof. exact C07.HistoryProofs.hcache_get_key_cases. Qed.
+Theorem expired_entry_not_used : forall base exp s n wl ie, fst (hcache_get_key base exp s n false wl ie) = base n.
+Proof. exact C07.HistoryProofs.hcache_expired. Qed.
+Theorem no_cache_current_key : forall c exp evs w w' s0 q r,
+  exp <= 0 -> In (w', s0, q, r) (History.run c exp w [] evs) -> key_for c exp w' s0 q = tok_get_key c w' (q_name q).
+Proof. exact C07.HistoryProofs.no_cache_current_key. Qed.
+Theorem history_key_provenance : forall c exp evs w s (ws : world -> Prop) w' s0 q r,
+  (forall x, In x (worlds w evs) -> ws x) -> prov c ws s ->
+  In (w', s0, q, r) (History.run c exp w s evs) ->
+  forall k, key_for c exp w' s0 q = Ok k -> exists w0, ws w0 /\ tok_get_key c w0 (q_name q) = Ok k.
+Proof. exact C07.HistoryProofs.history_key_provenance. Qed.
+Theorem file_token_key_right : forall c w n k, tok_get_key c w n = Ok k ->
+  cfg_get_key c n = Ok (tk_conf k) /\ spec_resolve c n = Some (tk_conf k) /\ kc_keyfile (tk_conf k) <> 0 /\
+  w_key w (kc_keyfile (tk_conf k)) = Ok (tk_priv k, tk_blob k).
+Proof. exact C07.HistoryProofs.tok_get_key_ok. Qed.
+(*    9f. Init refuses a bundle that lacks the certificate type the signer module needs *)
+Theorem init_requires_certificate : forall ct b b', init_h ct b = Ok b' ->
+  b' = b /\ (init_needs_x509 ct = true -> b_leaf b <> None) /\ (init_needs_pgp ct = true -> b_pgp b <> None).
+Proof. exact C07.HistoryProofs.init_h_ok. Qed.
+
 (* non-vacuity *)
 Example rsa_chain_signs :
   let key := mkPriv 1 (PRsa 77 65537) in
@@ -151,4 +242,60 @@ Example alias_resolves :
   let c := [mkKc 1 0 9 21 31 0; mkKc 2 1 0 22 32 0] in
   match token_get_key c (fun f => Ok (mkPriv f (POther f))) 2 with
   | Ok k => (k_id (fk_priv k) =? 21) && (kc_x509 (fk_conf k) =? 31) | _ => false end = true.
+Proof. reflexivity. Qed.
+
+(* histories: key A (file 1) with certificate a (file 11), PGP certificate of A (file 21); section 1; cosign site 12 *)
+Definition exA := mkPriv 1 (PRsa 77 65537).
+Definition exB := mkPriv 2 (PRsa 91 65537).
+Definition ex_a := mkCert 0 10 (PRsa 77 65537) 1 2.
+Definition ex_b := mkCert 0 20 (PRsa 91 65537) 3 2.
+Definition ex_cfg : cfg := [mkKc 1 0 9 1 11 21].
+Definition ex_world : world :=
+  mkWorld (fun f => if f =? 1 then Ok (exA, mkSrc true false []) else Err E_READ)
+          (fun f => if f =? 11 then Ok (mkSrc false false [ex_a]) else Err E_READ)
+          (fun f => if f =? 21 then Ok [mkEnt 500 (PRsa 77 65537)] else Err E_READ).
+Definition ex_cosign : site := mkSite 12 GNone 1 2 0.
+Definition ex_req (fresh : bool) : request := mkReq 1 fresh 0 false 1 (SgX509 ex_cosign) 5.
+Definition ex_pgp_req (fresh : bool) : request := mkReq 1 fresh 0 false 2 (SgPgp 5) 5.
+Definition ex_status (t : world * hcache * request * result outv) : Z :=
+  match snd t with
+  | Ok (OX509 e) => 1000 * k_id (s_key (em_sig e)) + c_der (em_leaf e)
+  | Ok (OPgp en sg) => 1000 * k_id (s_key sg) + en_id en
+  | Err e => - e | Panic e => -100 - e end.
+Example ex_cosign_in_sites : In ex_cosign sites.
+Proof. vm_compute. tauto. Qed.
+Example ex_req_wf : req_wf (ex_req true) /\ req_wf (ex_pgp_req false).
+Proof. unfold req_wf. cbn. repeat split; try reflexivity; vm_compute; tauto. Qed.
+(* no cache: sign; rotate the key file -> refused; install B's certificate -> still refused (LoadTokenCertificates also
+   checks the PGP certificate of the section, which is A's); install B's PGP certificate -> B signs under b / its own PGP key *)
+Example history_rotation_no_cache :
+  map ex_status (History.run ex_cfg 0 ex_world []
+    [EReq (ex_req true); EReq (ex_pgp_req true); EKey 1 (Ok (exB, mkSrc true false [])); EReq (ex_req true);
+     EX509 11 (Ok (mkSrc false false [ex_b])); EReq (ex_req true); EReq (ex_pgp_req true);
+     EPgp 21 (Ok [mkEnt 501 (PRsa 91 65537)]); EReq (ex_req true); EReq (ex_pgp_req true)])
+  = [1010; 1500; - E_MISMATCH; - E_MISMATCH; - E_MISMATCH; 2020; 2501].
+Proof. vm_compute. reflexivity. Qed.
+(* one-hour cache, section without PGP certificate: after the key file is replaced the live entry still answers with A,
+   and what is issued is A under a; when the certificate is replaced as well the cached A no longer matches: refused;
+   once the entry has expired B signs under b *)
+Definition ex_cfg_x : cfg := [mkKc 1 0 9 1 11 0].
+Example history_rotation_cached :
+  map ex_status (History.run ex_cfg_x 3600 ex_world []
+    [EReq (ex_req true); EKey 1 (Ok (exB, mkSrc true false [])); EReq (ex_req true);
+     EX509 11 (Ok (mkSrc false false [ex_b])); EReq (ex_req true); EReq (ex_req false); EReq (ex_req true)])
+  = [1010; 1010; - E_MISMATCH; 2020; 2020].
+Proof. vm_compute. reflexivity. Qed.
+Example history_examples_meet_spec :
+  spec_history_ok (History.run ex_cfg 3600 ex_world []
+    [EReq (ex_req true); EKey 1 (Ok (exB, mkSrc true false [])); EReq (ex_req true); EReq (ex_pgp_req true);
+     EX509 11 (Ok (mkSrc false false [ex_b])); EReq (ex_req false); EReq (ex_pgp_req false)]) = true.
+Proof. vm_compute. reflexivity. Qed.
+(* the hypotheses of key_rotation_refused are satisfiable *)
+Example key_rotation_hyps :
+  cfg_get_key ex_cfg 1 = Ok (mkKc 1 0 9 1 11 21) /\ w_x509 ex_world 11 = Ok (mkSrc false false [ex_a]) /\
+  same_key (KPriv exB) (KPub (c_pub ex_a)) = false.
+Proof. repeat split. Qed.
+(* the specification is not trivially true: A's certificate over a value made by B is rejected *)
+Example spec_rejects_mismatch :
+  spec_output_ok 5 (OX509 (mkEm ex_a [ex_a] (c_pub ex_a) (mkSig exB 5))) = false.
 Proof. reflexivity. Qed.
